@@ -113,6 +113,14 @@ def run_entry(entry, n, seed, acc, tier, rot=0):
         if charset == 'B' and dl[2] not in '!"&\'()*+,-./:;?=':
             # under the basic character set the component separator (data of ISA16) must be a basic character
             dl = (dl[0], dl[1], ch.choice([c for c in '!&+,/;?=' if c not in (dl[0], dl[1], dl[3])]), dl[3])
+        count_comp = False
+        if charset == 'E' and ch.chance(.12):
+            # a count that wrongly carries components, re-encoded with a component separator that makes its text look like a
+            # number to a lenient reader ('1_0', '+1')
+            c_ = [c for c in '_+' if c not in (dl[0], dl[1], dl[3])]
+            if c_:
+                dl = (dl[0], dl[1], ch.choice(c_), dl[3])
+                count_comp = True
         if entry['icvn'] == '00401' and charset == 'E' and ch.chance(.08):
             # groups of different maps in one interchange
             res = genfaulty.build_mixed(ch, acc, avoid='~*:^' + ''.join(dl), flavor='punct', envelope=.2, malformed=.25)
@@ -123,6 +131,11 @@ def run_entry(entry, n, seed, acc, tier, rot=0):
         if res is None:
             return {'skip': 'genfail'}
         doc, exps = res
+        if count_comp:
+            tr_ = [x for x in doc.segs if x.id in ('GE', 'IEA') and x.vals and x.vals[0]]
+            if tr_:
+                tr_[ch.integer(0, len(tr_) - 1)].vals[0] = ['1', '0'] if dl[2] == '_' else ['', '1']
+                exps.append({'kind': 'count-with-components', 'envelope': True})
         eol = ch.choice(['', '\n', '\r\n'])
         if dl[0] == '\n':
             eol = ''
